@@ -390,7 +390,13 @@ func (h *History) prefixArg(t *rapid.T, ti int) ([]byte, string) {
 
 func (h *History) kArg(t *rapid.T, ti int) uint64 {
 	n := uint64(h.eng.slots[ti].model.Len())
-	switch weighted(t, []int{2, 2, 2, 2, 2, 1, 1, 3}, "kmode") {
+	switch weighted(t, []int{2, 2, 2, 2, 2, 1, 1, 3, 1, 1, 1}, "kmode") {
+	case 8:
+		return ^uint64(0) // the largest uint (clamped to 2^32-1 on 32-bit platforms)
+	case 9:
+		return 1 << 63
+	case 10:
+		return 1 << 31
 	case 0:
 		return 0
 	case 1:
